@@ -54,6 +54,8 @@ type Eval struct {
 	old    *Eval
 	bound  *int
 	ex     *Exec
+	// unchanged() in a postcondition: every location of the contract's own modifies clause has its old value
+	unchanged func() T
 }
 
 func (ev *Eval) child() *Eval {
@@ -701,6 +703,11 @@ func (ev *Eval) call(x *ECall) SV {
 			b = ev.concretize(b, a.Ty)
 		}
 		return SV{T: Ite(cnd, a.T, b.T), Ty: a.Ty}
+	case "unchanged":
+		if ev.unchanged == nil {
+			sfail("unchanged() is only meaningful in a postcondition")
+		}
+		return SV{T: ev.unchanged(), Ty: boolTy}
 	case "fresh":
 		// fresh(x): x was allocated during the call (reference not below the old allocation counter)
 		if ev.old == nil {
